@@ -1,18 +1,20 @@
-INIT Init
-NEXT MCNext
+INIT SInit
+NEXT SNext
 CONSTANTS
-  Stacks <- Stacks3
+  Stacks <- Stacks2
   Indeps <- Both
   Targets <- AllTargets
-  MaxHooks = 2
+  MaxHooks = 1
   InitRegs <- C3Regs
   RegClasses <- None
   RegBehs <- None
   MaxRegs = 0
-  RaiseClasses <- C3Raise
+  RaiseClasses <- C3RaiseQ
   RenderClasses <- C3Render
   Mro <- MCMro
   StatusOf <- MCStatus
+  OwnVary <- MCOwnVary
+  MaxReqs = 1
   WrongDesign = "none"
-  MaxFaults = 4
+  MaxFaults = 1
 INVARIANT Emit
